@@ -9,7 +9,7 @@
 //|             && (forall|i: int| 0 <= i < 12 ==> dates12(r->Ok_0.dates)[i] == #[trigger] dates@[i] as int),
 //|         !(old(self).nxt is StructName) ==> r is Err,
 //|         // the elements are the ones the element-opening records announced, one per record, in order, each of the announced kind
-//|         r is Ok ==> exists|opens: Seq<GdsRecord>| #[trigger] kinds_ok(r->Ok_0.elems@, opens),
+//|         r is Ok ==> kinds_from(r->Ok_0.elems@),
 //|         // stream tie: STRNAME, then for each element its opening record + what its parser consumed + ENDEL, then ENDSTR are exactly the records consumed
 //|         r is Ok ==> parse_struct_post(*old(self), *final(self), r->Ok_0),
 //@   before1 /strukt = match self\.next\(\)\? \{/
@@ -81,7 +81,7 @@
 //@   before1 /strukt = strukt\.elems\(elems\);|let strukt = strukt\.build\(\)\?;/
 //|         let ghost ef = elems@;
 //@   before /^        Ok\(strukt\)$/
-//|         proof { assert(strukt.elems@ == ef); assert(kinds_ok(strukt.elems@, opens)); assert(elems_seg(strukt.elems@, segs));
+//|         proof { assert(strukt.elems@ == ef); assert(kinds_ok(strukt.elems@, opens)); assert(kinds_from(strukt.elems@)); assert(elems_seg(strukt.elems@, segs));
 //|             assert(tied_c(*old(self), *self, (seq![cs(0x06, string_bytes(&strukt.name))] + flat(segs)).push(c0(0x07))));
 //|             assert(parse_struct_post(*old(self), *self, strukt)); }
 //@ end
